@@ -375,6 +375,14 @@ func scanHarnessDir(hdir, repo, prop string) ([]*harnessDecl, map[string][]byte,
 	if err != nil {
 		return nil, nil, nil, err
 	}
+	filepath.Walk(hdir, func(path string, info os.FileInfo, err error) error {
+		if err == nil && !info.IsDir() && strings.HasPrefix(info.Name(), "zz_verif_") && strings.HasSuffix(info.Name(), ".go") {
+			if src, err := os.ReadFile(path); err == nil {
+				collectGroups(string(src))
+			}
+		}
+		return nil
+	})
 	err = filepath.Walk(hdir, func(path string, info os.FileInfo, err error) error {
 		if err != nil {
 			return err
@@ -445,6 +453,43 @@ func packageClause(src string) string {
 
 var reFunc = regexp.MustCompile(`^func\s+([A-Za-z0-9_]+)\s*\(`)
 
+var groups = map[string][]string{}
+
+func collectGroups(src string) {
+	var block []string
+	name := ""
+	for _, line := range strings.Split(src, "\n") {
+		if strings.HasPrefix(line, "//verif:group ") {
+			name = strings.TrimSpace(strings.TrimPrefix(line, "//verif:group "))
+			block = nil
+			continue
+		}
+		if strings.HasPrefix(line, "//verif:") {
+			block = append(block, line)
+			continue
+		}
+		if name != "" && !strings.HasPrefix(line, "//") {
+			groups[name] = block
+			name = ""
+			block = nil
+		}
+	}
+}
+
+func expandUses(block []string, depth int) []string {
+	var out []string
+	for _, l := range block {
+		if strings.HasPrefix(l, "//verif:use ") && depth < 5 {
+			for _, g := range strings.Fields(strings.TrimPrefix(l, "//verif:use ")) {
+				out = append(out, expandUses(groups[g], depth+1)...)
+			}
+			continue
+		}
+		out = append(out, l)
+	}
+	return out
+}
+
 func parseDirectives(src, rel, path string) []*harnessDecl {
 	var out []*harnessDecl
 	lines := strings.Split(src, "\n")
@@ -455,7 +500,7 @@ func parseDirectives(src, rel, path string) []*harnessDecl {
 			continue
 		}
 		if m := reFunc.FindStringSubmatch(line); m != nil && len(block) > 0 {
-			d := buildDecl(block, m[1], rel, path)
+			d := buildDecl(expandUses(block, 0), m[1], rel, path)
 			if d != nil {
 				out = append(out, d)
 			}
@@ -549,6 +594,8 @@ func buildDecl(block []string, fn, rel, path string) *harnessDecl {
 			if len(rest) > 0 {
 				d.Cfg.GoPolicy = rest[0]
 			}
+		case head == "noinit":
+			d.Cfg.NoInit = append(d.Cfg.NoInit, rest...)
 		case head == "init":
 			d.Cfg.InitPkgs = append(d.Cfg.InitPkgs, rest...)
 		case head == "param":
